@@ -151,11 +151,13 @@ static inline int _mzd_gauss_submatrix_top(mzd_t *A, rci_t r, rci_t c, int k) {
 
 static inline void _mzd_copy_back_rows(mzd_t *A, mzd_t const *U, rci_t r, rci_t c, int k) {
   wi_t const startblock = c / m4ri_radix;
-  wi_t const width      = A->width - startblock;
+  wi_t const width      = A->width - startblock - 1;
+  word const mask_end   = A->high_bitmask;
   for (int i = 0; i < k; ++i) {
     word const * src = mzd_row_const(U, i) + startblock;
     word * dst       = mzd_row(A, r + i) + startblock;
     for (wi_t j = 0; j < width; ++j) { dst[j] = src[j]; }
+    dst[width] = (dst[width] & ~mask_end) | (src[width] & mask_end);
   }
   __M4RI_DD_MZD(A);
 }
